@@ -565,6 +565,19 @@ func genHist(id int) O {
 	if withNaN {
 		h.Msgs = append(h.Msgs, map[string]interface{}{"id": newID("op"), "to": "captain", "update": map[string]interface{}{"z": map[string]interface{}{"spec": nanSpec()}}})
 	}
+	if rng.Intn(6) == 0 {
+		// one machine goes and another comes in one operation (the crew is as big as before): the newcomer sees the next
+		// unrouted message, the one that left does not
+		if len(h.Inits) == 0 {
+			h.Msgs = append(h.Msgs, map[string]interface{}{"id": newID("op"), "to": "captain", "update": map[string]interface{}{"a": map[string]interface{}{"spec": inlineSpec("A")}}})
+		}
+		h.Msgs = append(h.Msgs, map[string]interface{}{"id": newID("m")})
+		h.Msgs = append(h.Msgs, map[string]interface{}{"id": newID("op"), "to": "captain", "delete": []interface{}{"a"}, "update": map[string]interface{}{"b": map[string]interface{}{"spec": inlineSpec("B")}}})
+		h.Msgs = append(h.Msgs, map[string]interface{}{"id": newID("m")})
+		if rng.Intn(2) == 0 {
+			h.Msgs = append(h.Msgs, map[string]interface{}{"id": newID("m"), "to": "*"})
+		}
+	}
 	withDiag := rng.Intn(5) == 0
 	if withDiag {
 		h.Msgs = append(h.Msgs, map[string]interface{}{"id": newID("op"), "to": "captain", "update": map[string]interface{}{"y": map[string]interface{}{"spec": diagSpec()}}})
